@@ -38,7 +38,7 @@ def gen_case(rng, tier, idx):
     return {"n": n, "triggers": [rng.choice(["level", "rise", "fall"]) for _ in range(n)],
             "dw": rng.choice([8, 8, 16, 32, 64, 4]), "al": rng.choice([0, 0, 1, 2, 3, 4]),
             "attach": ["direct", "decoder", "connect"][idx % 3], "mon_trigger": rng.choice(["level", "rise", "fall"]),
-            "cycles": 350 if tier == "quick" else 900}
+            "cycles": (350 if tier == "quick" else 900) * (8 if rng.random() < 0.04 else 1)}
 
 
 def run_case(case):
